@@ -4,6 +4,8 @@
 //!
 //! stdin: a list of scenarios
 //! ```text
+//! (`watchdog=<s>`: a worker that holds the baton for s CPU seconds — default 5 — without reaching a yield point or finishing
+//! is reported as outcome `hang` with the schedule, the thread and its unit of work; hcsched then exits with code 3)
 //! scenario <name> [preempt=P] [cap=N] [full_cap=N] [random=N] [pct=N] [seed=S] [max_steps=N] [replay=t,t,…] [trace=1] [lockgran=1]
 //! <protocol lines building the initial map: load … / wv … / wa … / any single-threaded hcimpl line>
 //! thread
@@ -30,7 +32,7 @@
 //! the locks are taken with try-lock loops (vendored crate), a failed try-lock makes the thread wait until some commit
 //! released its locks; "every unfinished thread waits for a lock or in a blocking retry" is reported as `deadlock`.
 //!
-//! stdout: one JSON line per distinct outcome (`status` ok|hang|deadlock|panic|replay-mismatch|hang-no-yield, commit
+//! stdout: one JSON line per distinct outcome (`status` ok|hang|deadlock|panic|replay-mismatch, commit
 //! order as [thread, transaction index] pairs, per-thread result lines as hcimpl prints them for `endtx`, `snap` and
 //! `wf` of the final map, number of schedules with this outcome, one witness schedule) and one summary line per
 //! scenario (schedules per mode, failed validations = `retries`, blocking retries, non-transactional reads, …).
@@ -213,12 +215,24 @@ type JobResult = Result<Vec<String>, bool>;
 /// one mailbox per worker; idle workers spin, then yield, then poll (no futex on the hot path)
 #[derive(Default)]
 struct Slot {
+    /// kernel thread id of the worker (for the watchdog's CPU-time reading)
+    os_tid: std::sync::atomic::AtomicU64,
     job: std::sync::Mutex<Option<Job>>,
     res: std::sync::Mutex<Option<JobResult>>,
     has: std::sync::atomic::AtomicBool,
 }
 
+/// a worker that never came back to the scheduler (watchdog)
+struct Stuck {
+    schedule: Vec<u8>,
+    commit_order: Vec<(u8, u16)>,
+    thread: usize,
+    unit: usize,
+}
+
 struct Pool {
+    /// scenario parameter `watchdog=<seconds>` (CPU seconds of the baton holder without a yield point; default 5)
+    watchdog: u64,
     slots: Vec<Arc<Slot>>,
     /// scenario parameter `lockgran=1`: the lock acquisitions inside `commit` are decision points
     lockgran: bool,
@@ -226,7 +240,7 @@ struct Pool {
 
 impl Pool {
     fn new() -> Self {
-        Pool { slots: vec![], lockgran: false }
+        Pool { watchdog: 5, slots: vec![], lockgran: false }
     }
 
     fn ensure(&mut self, n: usize) {
@@ -235,6 +249,7 @@ impl Pool {
             let slot = Arc::new(Slot::default());
             self.slots.push(slot.clone());
             std::thread::spawn(move || {
+                slot.os_tid.store(sched::os_thread_id(), Ordering::SeqCst);
                 loop {
                     let mut k = 0u32;
                     while !slot.has.swap(false, Ordering::SeqCst) {
@@ -277,7 +292,7 @@ impl Pool {
     }
 
     /// one scheduled execution of `ntx.len()` threads; `Err(())` = a worker never reached a yield point again
-    fn run(&mut self, ntx: &[usize], body: Body, strategy: Strategy, max_steps: u64, trace: bool) -> Result<(Run, Vec<Vec<String>>, String), Vec<u8>> {
+    fn run(&mut self, ntx: &[usize], body: Body, strategy: Strategy, max_steps: u64, trace: bool) -> Result<(Run, Vec<Vec<String>>, String), Stuck> {
         let nt = ntx.len();
         self.ensure(nt);
         let sh = Shared::new(Run::new(nt, max_steps, strategy, trace, self.lockgran));
@@ -288,8 +303,9 @@ impl Pool {
         }
         drop(body);
         sh.release();
-        if sh.wait_all(nt, 20).is_err() {
-            return Err(sh.schedule_so_far());
+        let os_tids: Vec<u64> = self.slots.iter().map(|s| s.os_tid.load(std::sync::atomic::Ordering::SeqCst)).collect();
+        if let Err(thread) = sh.wait_all(nt, self.watchdog, &os_tids) {
+            return Err(Stuck { schedule: sh.schedule_so_far(), commit_order: sh.commit_order_so_far(), thread, unit: sh.current_unit(thread) });
         }
         let mut results: Vec<Vec<String>> = vec![vec![]; nt];
         let mut worker_panic = false;
@@ -545,14 +561,24 @@ fn run_once(pool: &mut Pool, sc: &Scenario, strategy: Strategy, max_steps: u64, 
     };
     let (run, results, status) = match pool.run(&ntx, body, strategy, max_steps, trace) {
         Ok(x) => x,
-        Err(sched) => {
-            // a worker spins between two yield points: it cannot be stopped, report and leave
-            let wit: Vec<String> = sched.iter().map(|t| t.to_string()).collect();
+        Err(st) => {
+            // WATCHDOG: a worker holds the baton and neither reaches a yield point nor finishes (it spins inside its closure).
+            // An OS thread cannot be cancelled: report the schedule as `hang` and leave with exit code 3; the caller restarts
+            // the explorer on the remaining scenarios.
+            let wit: Vec<String> = st.schedule.iter().map(|t| t.to_string()).collect();
+            let ord: Vec<String> = st.commit_order.iter().map(|(t, k)| format!("[{t},{k}]")).collect();
+            let unit: Vec<String> = sc.threads.get(st.thread).and_then(|t| t.get(st.unit)).map(|u| u.iter().map(|op| js(&op.join(" "))).collect()).unwrap_or_default();
             println!(
-                "{{\"scenario\":{},\"type\":\"outcome\",\"status\":\"hang-no-yield\",\"commit_order\":[],\"results\":[],\"snap\":\"\",\"wf\":\"\",\"count\":1,\"mode\":\"?\",\"preemptions\":0,\"witness\":[{}]}}",
+                "{{\"scenario\":{},\"type\":\"outcome\",\"status\":\"hang\",\"watchdog\":true,\"watchdog_s\":{},\"hang_thread\":{},\"hang_unit\":{},\"hang_ops\":[{}],\"commit_order\":[{}],\"results\":[],\"snap\":\"\",\"wf\":\"\",\"count\":1,\"mode\":\"?\",\"preemptions\":0,\"witness\":[{}]}}",
                 js(&sc.name),
+                pool.watchdog,
+                st.thread,
+                st.unit,
+                unit.join(","),
+                ord.join(","),
                 wit.join(",")
             );
+            println!("{{\"scenario\":{},\"type\":\"watchdog-exit\"}}", js(&sc.name));
             std::io::stdout().flush().unwrap();
             std::process::exit(3);
         }
@@ -657,6 +683,7 @@ fn record(out: RunOut, mode: &str, outcomes: &mut BTreeMap<Key, Outcome>, tot: &
 fn explore(pool: &mut Pool, sc: &Scenario) {
     let max_steps = sc.num("max_steps", 20000);
     pool.lockgran = sc.num("lockgran", 0) != 0;
+    pool.watchdog = sc.num("watchdog", 5).max(1);
     let flags_fixed = sc.threads.iter().all(|t| t.iter().all(|tx| tx.iter().all(|op| FLAG_PRESERVING.contains(&op[0].as_str()))));
     // storages beyond the five of `capture` / `reset` (the anchors of honeycomb-kernels, mask bits 5..7): rebuild per schedule
     let mask: u32 = sc.init.first().and_then(|l| l.split_ascii_whitespace().nth(3)).and_then(|m| m.parse().ok()).unwrap_or(0);
@@ -922,6 +949,31 @@ mod tests {
         };
         let out = explore_raw(&[1, 1], mk, u32::MAX, 1000);
         assert!(out.keys().all(|(s, _)| s == "deadlock"), "{out:?}");
+    }
+
+    #[test]
+    fn watchdog_reports_a_worker_spinning_between_yield_points() {
+        std::panic::set_hook(Box::new(|_| {}));
+        let x = TVar::new(0u32);
+        let body: Body = Arc::new(move |tid, _| {
+            if tid == 1 {
+                atomically(|t| x.read(t));
+                // all further reads come from the log: no yield point is ever reached again
+                #[allow(clippy::empty_loop)]
+                loop {
+                    std::hint::spin_loop();
+                }
+            }
+            atomically(|t| x.write(t, 1));
+            "w".to_string()
+        });
+        let mut pool = Pool::new();
+        pool.watchdog = 1;
+        let t0 = std::time::Instant::now();
+        let r = pool.run(&[1, 1], body, Strategy::Replay { sched: vec![1, 1, 1], pos: 0 }, 1000, false);
+        let st = r.err().expect("the watchdog must fire");
+        assert_eq!((st.thread, st.unit), (1, 0));
+        assert!(t0.elapsed().as_secs() < 8, "{:?}", t0.elapsed());
     }
 
     #[test]
